@@ -50,12 +50,12 @@ def main():
     with_rc = subprocess.run(["/venv/bin/python", demo], cwd=wt, env=env, stdout=subprocess.PIPE,
                              stderr=subprocess.STDOUT, text=True)
     # without the change
-    sh(f"git -C {wt} stash")
+    sh(f"git -C {wt} checkout -- src rust")     # (no git stash: the stash is shared between worktrees)
     if rust:
         shutil.copyfile(os.path.join("/repo", SO), os.path.join(wt, SO))
     without_rc = subprocess.run(["/venv/bin/python", demo], cwd=wt, env=env, stdout=subprocess.PIPE,
                                 stderr=subprocess.STDOUT, text=True)
-    sh(f"git -C {wt} stash pop")
+    sh(f"git -C {wt} apply {os.path.join(out, 'patch.diff')}")
     meta = {
         "property": pid,
         "name": name,
